@@ -110,7 +110,7 @@ def populate(root: str, files: dict[str, bytes]) -> None:
         if data.startswith(SYMLINK_MARK):
             os.symlink(data[len(SYMLINK_MARK) :].decode(), p)
             continue
-        if rel.endswith(".s") and ROOT_TOKEN in data:
+        if ROOT_TOKEN in data and not rel.endswith((".bin", ".ips", ".sfc", ".smc", ".tbl")):  # source text under any name
             data = data.replace(ROOT_TOKEN, root.encode())
         with _REAL_OPEN(p, "wb") as f:
             f.write(data)
